@@ -147,6 +147,7 @@ func c10(c *Ctx) {
 	c10ReaderRestart(c, "C10.7/reader-restart-resets-iteration-state")
 	c10SnapshotTime(c, "C10.9/snapshot-time-follows-its-root")
 	c10SeekBoundary(c, "C10.11/key-equal-to-a-child-minimum-goes-to-that-child")
+	c10FailedInsertRestoresItsOwnStart(c, "C10.12/failed-insertion-restores-the-state-before-it")
 	c10SubtreeMinOffset(c, "C10.10/subtree-min-offset-is-the-minimum-of-the-children-minima")
 	// prefix readers: a bound clamped to the prefix range is inclusive (analysis shared with C04.7)
 	c04ScanBounds(c, "C10.8/clamped-scan-bound-is-inclusive")
@@ -1000,5 +1001,36 @@ func c10SeekBoundary(c *Ctx, r string) {
 	})
 	if n < 2 {
 		c.undecided(r, "floor", fmt.Sprintf("%d comparisons between the key sought and a child's minimum key found (2 confirmed by hand: descending and ascending walk)", n))
+	}
+}
+
+// c10FailedInsertRestoresItsOwnStart: an insertion that fails half way has changed (mutable) nodes in place; the tree is
+// then put back to a previous root. What the map must equal afterwards is the state BEFORE THAT insertion: every earlier
+// insertion was acknowledged. A root kept from the last snapshot/flush is older than that whenever something was
+// inserted since: restoring it silently drops those insertions.
+func c10FailedInsertRestoresItsOwnStart(c *Ctx, r string) {
+	f := c.mustFn(r, "embedded/tbtree.(*TBtree).bulkInsert")
+	if f == nil {
+		return
+	}
+	n := 0
+	for i, st := range sites(f, storeTo("TBtree.root")) {
+		v := st.(*ssa.Store).Val
+		old := dependsOn(v, func(x ssa.Value) bool {
+			u, ok := x.(*ssa.UnOp)
+			if !ok || u.Op != token.MUL {
+				return false
+			}
+			fl, _ := fieldOf(u.X)
+			return fl == "TBtree.lastSnapRoot"
+		})
+		if !old {
+			continue
+		}
+		n++
+		c.fail(r, fmt.Sprintf("%s:restores-lastSnapRoot#%d", fnName(f), i), c.pos(st.Pos()), "after a failed insertion the tree is put back to the root of the last snapshot: insertions acknowledged since that snapshot are dropped with the failed one")
+	}
+	if n == 0 {
+		c.ok(r, fnName(f)+":restores-lastSnapRoot", c.pos(f.Pos()), "a failed insertion does not fall back to an older snapshot root")
 	}
 }
